@@ -2,11 +2,11 @@ package sqlm
 
 // helper constructors used by the pool and the generators
 
-func col(name, typ string) Col         { return Col{Name: name, Type: typ} }
-func ncol(name, typ string) Col        { return Col{Name: name, Type: typ, Null: true} }
-func (c Col) str(v string) Col         { c.Default = &Default{Kind: "str", V: v}; return c }
-func (c Col) num(v string) Col         { c.Default = &Default{Kind: "num", V: v}; return c }
-func (c Col) expr(v string) Col        { c.Default = &Default{Kind: "expr", V: v}; return c }
+func col(name, typ string) Col  { return Col{Name: name, Type: typ} }
+func ncol(name, typ string) Col { return Col{Name: name, Type: typ, Null: true} }
+func (c Col) str(v string) Col  { c.Default = &Default{Kind: "str", V: v}; return c }
+func (c Col) num(v string) Col  { c.Default = &Default{Kind: "num", V: v}; return c }
+func (c Col) expr(v string) Col { c.Default = &Default{Kind: "expr", V: v}; return c }
 func (c Col) virt(e string, refs ...string) Col {
 	c.Gen = &Gen{Expr: e, Refs: refs}
 	return c
@@ -128,14 +128,14 @@ func Pool() []PoolEntry {
 	logt := Table{Name: "log", Cols: []Col{ncol("at", "datetime").expr("CURRENT_TIMESTAMP"), col("msg", "text"), ncol("lvl", "smallint").num("0")},
 		Idx: []Idx{{Name: "log_lvl", Parts: []Part{{Col: "lvl", Desc: true}, {Col: "at"}}}}}
 	tag := Table{Name: "tag", Cols: []Col{col("name", "varchar(100)"), ncol("color", "character(20)").str("red")}, PK: []string{"name"},
-		Checks: []Check{{Name: "tag_color", Expr: "color IN ('red', 'green', 'blue')", Refs: []string{"color"}}}}
+		Checks: []Check{{Name: "tag_color", Expr: "color NOT IN ('none', 'n/a')", Refs: []string{"color"}}}}
 
 	// composite foreign key to a composite primary key, chain of three tables
 	ord := Table{Name: "ord", Cols: []Col{col("shop", "integer"), col("num", "integer"), ncol("note", "text")}, PK: []string{"shop", "num"}}
 	line := Table{Name: "line", Cols: []Col{col("id", "integer"), col("shop", "integer"), col("num", "integer"), col("qty", "integer").num("1"),
 		ncol("total", "integer").virt("qty * 10", "qty")}, PK: []string{"id"},
-		Idx: []Idx{{Name: "line_ord", Parts: asc("shop", "num")}},
-		FKs: []FK{{Name: "line_ord_fk", Cols: []string{"shop", "num"}, RefTable: "ord", RefCols: []string{"shop", "num"}, OnDelete: "CASCADE", OnUpdate: "CASCADE"}},
+		Idx:    []Idx{{Name: "line_ord", Parts: asc("shop", "num")}},
+		FKs:    []FK{{Name: "line_ord_fk", Cols: []string{"shop", "num"}, RefTable: "ord", RefCols: []string{"shop", "num"}, OnDelete: "CASCADE", OnUpdate: "CASCADE"}},
 		Checks: []Check{{Name: "qty_pos", Expr: "qty > 0", Refs: []string{"qty"}}, {Expr: "qty < 1000000000", Refs: []string{"qty"}}}}
 	ship := Table{Name: "ship", Cols: []Col{col("id", "integer"), ncol("line_id", "integer"), ncol("w", "double precision")}, PK: []string{"id"},
 		FKs: []FK{{Name: "ship_line", Cols: []string{"line_id"}, RefTable: "line", RefCols: []string{"id"}, OnDelete: "NO ACTION", OnUpdate: "SET NULL"}}}
